@@ -154,10 +154,10 @@ func (f *decompressor) step() (err error) {
 	if isError(err) || (err == errEndInput && f.eof) {
 		discardSize := f.peekSize - len(f.state.input) - int(state.bitsLen/8)
 		if discardSize > 0 {
-			_, err := f.rBuf.Discard(discardSize)
-			if err != nil {
-				return err
-			}
+			// Best effort only: after an over-read bitsLen is negative and
+			// the count exceeds what is buffered; Discard's io.EOF must not
+			// replace the decoding error.
+			f.rBuf.Discard(discardSize)
 		}
 		f.state.input = nil
 		if err == errEndInput {
